@@ -10,6 +10,9 @@ package sm4_test
 
 import (
 	"fmt"
+	"os"
+	"os/exec"
+	"strings"
 	"syscall"
 	"testing"
 	"unsafe"
@@ -64,4 +67,80 @@ func TestVerif_C06_LengthLimit(t *testing.T) {
 		}
 	}
 	rec.Sample("limit", map[string]interface{}{"limit_bytes": limit, "offsets": "-4097..4096", "ops": "seal, open"})
+}
+
+// The same device decides what happens when the RESULT does not fit the destination and its size leaves 32 bits: messages of
+// 2^32-17 .. 2^33-16 bytes (result sizes around 2^32 and 2^33) with a destination that has a LITTLE spare capacity (64 bytes:
+// whether "64 >= needed" holds is decided correctly only in 64 bits), a 3-byte prefix, or none. The library must allocate the
+// result and go on to the message, where it faults (inaccessible reservation). Each case runs in a child process: a wrong
+// decision ends in a slice-bounds panic or in memory corruption that kills the process. Thorough tier (the fresh 4..8 GiB result
+// may have to be zeroed by the allocator).
+func TestVerif_C06_ResultAround4G(t *testing.T) {
+	rec := stats.Get("C06", "result-around-4g")
+	rec.Rule("thorough only, enumeration: Seal of 2^32-17, 2^32-16, 2^32-15, 2^32, 2^32+5 and 2^33-16 bytes (an inaccessible reservation) into dst = nil / empty with 64 bytes of capacity / 3 bytes with 70 bytes of capacity, one child process per case. Oracle: the call goes on to process the message (it faults on its first byte); a panic of its own or a crash of the child is a violation. Non-trivial: every case.")
+	t.Cleanup(stats.FlushAll)
+	if spec := os.Getenv("VERIF_C06_R4G"); spec != "" {
+		var n int
+		var shape string
+		fmt.Sscanf(spec, "%d %s", &n, &shape)
+		addr, _, errno := syscall.Syscall6(syscall.SYS_MMAP, 0, uintptr(n+4096), syscall.PROT_NONE, syscall.MAP_ANON|syscall.MAP_PRIVATE|syscall.MAP_NORESERVE, ^uintptr(0), 0)
+		if errno != 0 {
+			fmt.Println("VERIF-R4G-SKIP: cannot reserve address space:", errno)
+			return
+		}
+		mem := unsafe.Slice((*byte)(unsafe.Pointer(addr)), n)
+		a, _ := hugeAEAD(t)
+		var dst []byte
+		switch shape {
+		case "cap64":
+			dst = make([]byte, 0, 64)
+		case "prefix3-cap70":
+			dst = make([]byte, 3, 70)
+		}
+		flt, other := guard.Run(func() { a.Seal(dst, make([]byte, 12), mem, nil) })
+		if flt != nil {
+			fmt.Println("VERIF-R4G-ACCEPTED")
+		} else {
+			fmt.Printf("VERIF-R4G-REFUSED: %v\n", other)
+		}
+		return
+	}
+	if !vt.Thorough() {
+		rec.Skipped("thorough tier only")
+		return
+	}
+	if !hugeGate(t, rec, 12) {
+		return
+	}
+	exe, err := os.Executable()
+	if err != nil {
+		rec.Skipped("cannot locate the test binary")
+		return
+	}
+	for _, n := range []int{1<<32 - 17, 1<<32 - 16, 1<<32 - 15, 1 << 32, 1<<32 + 5, 1<<33 - 16} {
+		for _, shape := range []string{"nil", "cap64", "prefix3-cap70"} {
+			cmd := exec.Command(exe, "-test.run", "^TestVerif_C06_ResultAround4G$", "-test.count=1", "-test.timeout=600s")
+			cmd.Env = append(os.Environ(), fmt.Sprintf("VERIF_C06_R4G=%d %s", n, shape), "VERIF_STATS_DIR=")
+			out, runErr := cmd.CombinedOutput()
+			so := string(out)
+			rec.Case(uint64(n)*8+uint64(len(shape)), true, "dst:"+shape)
+			rec.Enumerated(1, "seal-small-dst")
+			tail := so
+			if len(tail) > 600 {
+				tail = tail[:600]
+			}
+			switch {
+			case strings.Contains(so, "VERIF-R4G-ACCEPTED"):
+			case strings.Contains(so, "VERIF-R4G-REFUSED"):
+				i := strings.Index(so, "VERIF-R4G-REFUSED")
+				vt.Fail(t, rec, "C06:result-4g:refused", "Seal of %d bytes into dst (%s) did not go on to process the message: %s", n, shape, strings.SplitN(so[i:], "\n", 2)[0])
+			case strings.Contains(so, "VERIF-R4G-SKIP") || strings.Contains(so, "out of memory") || strings.Contains(so, "cannot allocate") || strings.Contains(so, "test timed out"):
+				rec.Skipped(fmt.Sprintf("%d bytes, dst %s: not enough memory or time", n, shape))
+			case runErr != nil && (strings.Contains(so, "fatal error") || strings.Contains(so, "panic:") || strings.Contains(so, "unexpected signal") || strings.Contains(so, "SIGSEGV")):
+				vt.Fail(t, rec, "C06:result-4g:crash", "Seal of %d bytes into dst (%s) crashed the process: %v\n%s", n, shape, runErr, tail)
+			default:
+				rec.Skipped(fmt.Sprintf("%d bytes, dst %s: child gave no verdict (%v)", n, shape, runErr))
+			}
+		}
+	}
 }
